@@ -54,13 +54,13 @@ func tier(t string) tiers {
 
 type coins struct {
 	forceSkip int // a site always skipped on top of the policy (-1: none)
-	d      *Data
-	r      *kernel.Rand
-	visit  int
-	skips  []int // visits skipped
-	list   map[int]bool
-	fired  [32]int // skipped visits per site
-	visits [32]int
+	d         *Data
+	r         *kernel.Rand
+	visit     int
+	skips     []int // visits skipped
+	list      map[int]bool
+	fired     [32]int // skipped visits per site
+	visits    [32]int
 }
 
 func (c *coins) skip(site int) bool {
